@@ -26,7 +26,7 @@ def showAnswer (goal : Pattern) (b : Subst) : Option String :=
     let r := resolveT b (.var v)
     match r with
     | .var w => if (lookupT w b).isSome then none else some s!"{v}=_"
-    | .const c => some s!"{v}={c}").map (joinWith ",")
+    | .const c => some s!"{v}={c}").map fun (parts : List String) => if parts.isEmpty then "T" else joinWith "," parts
 
 def canon (l : List String) : String :=
   "[" ++ joinWith ";" ((l.eraseDups).mergeSort fun a b => decide (a ≤ b)) ++ "]"
